@@ -9,7 +9,17 @@
 (*             point, obs = the table the callbacks read, d / c = projection of    *)
 (*             what the delta / cumulative reader reported for this stream         *)
 (* Reader data: [has, temp, dt, junk, pts[a]];  point: [p, x, v, n, s, b, z, sc,   *)
-(*   pos, neg, sle, tok, slo, shi, sprev, scont, sfirst]  (see docs/notes/C08.md)  *)
+(*   pos, neg, sle, sprev, sgap, scont, sfirst]  (see docs/notes/C08.md).  The      *)
+(*   timestamps of the real points are projected by the harness onto STRUCTURAL    *)
+(*   relations between timestamps the SDK itself reported (never the wall clock):  *)
+(*   sle    StartTime <= Time of the same point                                     *)
+(*   sprev  StartTime = the Time this reader reported for this stream in its         *)
+(*          immediately preceding collection ("eq"/"ne"; "na" = nothing reported)   *)
+(*   sgap   StartTime is not before any Time this reader reported (any stream) two   *)
+(*          or more collections ago                                                  *)
+(*   scont  StartTime = StartTime of the same attribute set in the preceding         *)
+(*          collection of this reader ("na" = it was not reported then)              *)
+(*   sfirst StartTime = the first StartTime this reader ever reported for the set    *)
 (*                                                                                 *)
 (* Two kinds of clauses are evaluated on the REAL data:                            *)
 (*   absolute   the real point equals the model's point (sets, values, intervals)  *)
@@ -56,20 +66,35 @@ ValueClauses(cf, E, R) ==
   ELSE LET c1 == BagClauses(cf, R, E.bag) IN
        IF c1 = {} THEN {} ELSE IF E.bag2 # E.bag /\ BagClauses(cf, R, E.bag2) = {} THEN {} ELSE c1
 
-(* interval clauses; k = logical time of this collection point.  Gauges carry no  *)
-(* temporality in the data model: only start <= time is required of them.         *)
-TimeClauses(cf, rd, k, R) ==
+(* interval clauses.  Delta: adjacent (start = the reader's previous Time for the   *)
+(* stream, when there is one) and non-overlapping (never before anything reported   *)
+(* two or more collections ago); cumulative: one fixed start per attribute set      *)
+(* (asynchronous sets that reappear after a gap may restart).  Gauges carry no       *)
+(* temporality in the data model: only start <= time is required of them.            *)
+TimeClauses(cf, rd, R) ==
   (IF ~R.sle THEN {"start-after-time"} ELSE {})
-  \cup (IF ~R.tok THEN {"time-outside-collection"} ELSE {})
-  \cup (IF cf.agg # "last" /\ rd = "d" /\ k >= 2 /\ (R.sprev = "ne" \/ ~(R.slo <= k - 1 /\ k - 1 <= R.shi))
-        THEN {"delta-start-not-previous-collection"} ELSE {})
+  \cup (IF cf.agg # "last" /\ rd = "d" /\ R.sprev = "ne" THEN {"delta-start-not-previous-time"} ELSE {})
+  \cup (IF cf.agg # "last" /\ rd = "d" /\ ~R.sgap THEN {"delta-start-overlaps-earlier-collection"} ELSE {})
   \cup (IF cf.agg # "last" /\ rd = "c" /\ (R.scont = "ne" \/ (~Async(cf) /\ R.sfirst = "ne"))
         THEN {"cumulative-start-moved"} ELSE {})
 
-PtClauses(cf, rd, k, E, R) ==
+(* a point that contributes nothing: the statement does not forbid a delta reader   *)
+(* to report one for a set of a synchronous sum / histogram without measurement in  *)
+(* the cycle (the running total is unchanged)                                        *)
+ZeroPoint(cf, R) ==
+  CASE cf.agg = "sum" -> R.v = 0
+    [] cf.agg = "hist" -> R.n = 0 /\ (NoSum(cf) \/ R.s = 0) /\ \A i \in DOMAIN R.b : R.b[i] = 0
+    [] cf.agg = "expo" -> R.n = 0 /\ (NoSum(cf) \/ R.s = 0) /\ R.z = 0 /\ R.pos = <<>> /\ R.neg = <<>>
+    [] OTHER -> FALSE
+
+(* a synchronous gauge a cumulative reader still reports in a cycle without a        *)
+(* recording (E.o): the statement fixes no value for it                              *)
+PtClauses(cf, rd, E, R) ==
   IF ~R.p THEN (IF E.p /\ ~E.o THEN {"set-missing"} ELSE {})
-  ELSE IF ~E.p THEN {"set-extra"}
-  ELSE (IF ~R.x THEN {"inexact"} ELSE {}) \cup ValueClauses(cf, E, R) \cup TimeClauses(cf, rd, k, R)
+  ELSE IF ~E.p THEN (IF rd = "d" /\ ~Async(cf) /\ ZeroPoint(cf, R) THEN TimeClauses(cf, rd, R) ELSE {"set-extra"})
+  ELSE (IF ~R.x THEN {"inexact"} ELSE {})
+       \cup (IF cf.agg = "last" /\ E.o THEN {} ELSE ValueClauses(cf, E, R))
+       \cup TimeClauses(cf, rd, R)
 
 WantTemp(cf, rd) == IF cf.agg = "last" THEN "none" ELSE IF rd = "d" THEN "delta" ELSE "cumulative"
 MetaClauses(cf, rd, D) ==
@@ -81,9 +106,9 @@ MetaClauses(cf, rd, D) ==
 ShapeOK(cf, D) == /\ Len(D.pts) = cf.na
                   /\ \A a \in 1..cf.na : D.pts[a].p /\ cf.agg = "hist" => Len(D.pts[a].b) = Len(cf.bounds) + 1
 
-AbsViols(cf, rd, k, O, D) ==
+AbsViols(cf, rd, O, D) ==
   {[rd |-> rd, a |-> 0, clause |-> c] : c \in MetaClauses(cf, rd, D)}
-  \cup UNION {{[rd |-> rd, a |-> a, clause |-> c] : c \in PtClauses(cf, rd, k, O.pts[a], D.pts[a])} : a \in 1..cf.na}
+  \cup UNION {{[rd |-> rd, a |-> a, clause |-> c] : c \in PtClauses(cf, rd, O.pts[a], D.pts[a])} : a \in 1..cf.na}
 
 -----------------------------------------------------------------------------
 (* relational monitor: running totals of the REAL delta values per attribute set. *)
@@ -141,7 +166,7 @@ TCycle ==
          m1 == NextMon(C, mon, T.d)
          shape == ShapeOK(C, T.d) /\ ShapeOK(C, T.c)
          viols == IF ~shape THEN {[rd |-> "?", a |-> 0, clause |-> "shape"]}
-                  ELSE AbsViols(C, "d", s2.k, s2.out.d, T.d) \cup AbsViols(C, "c", s2.k, s2.out.c, T.c)
+                  ELSE AbsViols(C, "d", s2.out.d, T.d) \cup AbsViols(C, "c", s2.out.c, T.c)
                        \cup RelViols(C, m1, T.c)
      IN /\ st' = s2
         /\ mon' = IF shape THEN m1 ELSE mon
